@@ -355,6 +355,56 @@ def make_finite(batches, betas, beta_final, shifted=False):
                       theory="QF_LRA", max_paths=5000)
 
 
+def make_replaced_history(batches, betas, beta_final, D):
+    """sequence on ONE object: compute, replace the history by a different one of the same shape (update_from_dict, the
+    load/resume path), compute again - the second result must follow the formula for the NEW history (no stale caches)."""
+
+    def harness(ctx: PathCtx):
+        st, pb1, _ = build_state(ctx, batches, betas, D)
+        run_real(st, float(beta_final), True)
+        run_real(st, float(beta_final), False)
+        other = StateManager(n_dim=1)
+        pb2 = []
+        k = 0
+        for t, nt in enumerate(batches):
+            ls = [LogVal.atom(f"m{k + j}", D) for j in range(nt)]
+            zt = real(ctx, f"Y{t}", lo=0, lo_strict=True)
+            other.update_current({"logl": sarr(ls), "beta": float(betas[t]), "logz": LogVal.of_positive(zt)})
+            other.commit_current_to_history()
+            pb2.append((ls, zt, betas[t]))
+            k += nt
+        st.update_from_dict(other.to_dict())
+        logw, logz = run_real(st, float(beta_final), normalize=False)
+        spec = spec_weights(pb2, beta_final, D)
+        tot = spec[0]
+        for s_ in spec[1:]:
+            tot = tot + s_
+        ctx.check("weights-follow-the-formula-for-the-replaced-history", z3.And(*[eq(logw[i].exp(), spec[i]) for i in range(len(spec))]))
+        ctx.check("evidence-follows-the-replaced-history", eq(logz.exp(), tot / len(spec)))
+        return None
+
+    def replay(m, label, v):
+        rng = np.random.RandomState(0)
+        st = StateManager(n_dim=1)
+        other = StateManager(n_dim=1)
+        for s_, off in ((st, 0.0), (other, 5.0)):
+            for t, nt in enumerate(batches):
+                s_.update_current({"logl": rng.randn(nt) - off, "beta": float(betas[t]), "logz": float(rng.randn())})
+                s_.commit_current_to_history()
+        st.compute_logw_and_logz(float(beta_final))
+        st.update_from_dict(other.to_dict())
+        a = st.compute_logw_and_logz(float(beta_final))
+        b = other.compute_logw_and_logz(float(beta_final))
+        bad = not (np.allclose(a[0], b[0]) and math.isclose(a[1], b[1]))
+        return {"reproduced": bool(bad), "signature": "compute_logw_and_logz:stale-after-history-replacement", "payload": {"got": np.asarray(a[0]).tolist(), "expected": np.asarray(b[0]).tolist()},
+                "what": "compute_logw_and_logz after update_from_dict(<a different history of the same shape>) returns weights that do not belong to the new history"}
+
+    return Obligation(f"replaced-history-n{'x'.join(map(str, batches))}-bf{beta_final}", harness, replay=replay,
+                      encodes=[StateManager.compute_logw_and_logz, StateManager.update_from_dict, StateManager.to_dict],
+                      bounds=f"two symbolic histories with batches {batches}, betas {list(map(str, betas))}; compute / replace / compute on one object",
+                      stubs=["np.log/np.logaddexp -> exact log-domain algebra"], theory="QF_NRA")
+
+
 H = Fraction(1, 2)
 Q = Fraction(1, 4)
 
@@ -381,6 +431,7 @@ def obligations(tier):
     for batches, betas, bf, D in rel:
         obs.append(make_relational(batches, tuple(Fraction(b) for b in betas), Fraction(bf), D, "permute"))
         obs.append(make_relational(batches, tuple(Fraction(b) for b in betas), Fraction(bf), D, "shift"))
+    obs.append(make_replaced_history((2, 1), (Fraction(0), H), Fraction(1), 2))
     obs.append(make_finite((2, 1), (Fraction(0), H), Fraction(1)))
     obs.append(make_finite((1, 1), (H, Fraction(1)), Fraction(1)))
     if tier == "thorough":
